@@ -67,13 +67,38 @@ def cells_c01(prop, fe, spec, pk, sh, stats, res):
 
 
 def cells_c02(prop, fe, spec, pk, sh, stats, res, ntrail):
-    for f in pipea.run_c02(fe, spec, pk, sh, [], stats, ntrail=ntrail):
-        f.prop = prop
-        res.append(f)
+    seen = set()
+    # with trailing bytes (the decoder must stop where the message ends) and, for some shapes, with none at all (the message's
+    # last byte is the buffer's last byte: guards of the kind "enough bytes left" are exact there)
+    for nt in ([ntrail, 0] if (sh.s in (1, 'full') and not sh.salt) or ntrail > 1 else [ntrail]):
+        for f in pipea.run_c02(fe, spec, pk, sh, [], stats, ntrail=nt):
+            f.prop = prop
+            if nt == 0:
+                f.symptom = 'exact-buffer:' + f.symptom
+            k = (f.construct, f.symptom.replace('exact-buffer:', ''))
+            if k in seen:
+                continue
+            seen.add(k)
+            res.append(f)
+
+
+def has_checksum(spec, pk, depth=0):
+    """the packet, or a packet nested in it (object, inline object, match payload), declares a checksum field"""
+    if depth > 4:
+        return False
+    for f in pk.fields:
+        sem = spec.resolve(f)
+        if sem[0] == 'checksum':
+            return True
+        if sem[0] == 'obj' and sem[1] is not None and has_checksum(spec, sem[1], depth + 1):
+            return True
+        if sem[0] == 'match' and any(spec.packet(p) is not None and has_checksum(spec, spec.packet(p), depth + 1) for _, p in f.pairs):
+            return True
+    return False
 
 
 def cells_c06(prop, fe, spec, pk, sh, stats, res, ntrail):
-    if not any(spec.resolve(f)[0] == 'checksum' for f in pk.fields):
+    if not has_checksum(spec, pk):
         return
     for reg in (True, False):
         for f in pipea.run_c01(fe, spec, pk, sh, [], stats, cks_registered=reg):
@@ -732,11 +757,11 @@ def validate_frontends(spec, emit, fes):
     cmsg = cex_to_msg(spec, pk, cex)
     data = eval_bytes(ref_enc(RefCtx(spec, cks_registered=False), pk, cmsg), _empty_model())
     nmsg = msg_to_native(spec, pk, cex)
-    for lang in ('python', 'go', 'java'):
+    for lang in ('python', 'go', 'java', 'rust', 'cpp'):
         fe = fes.get(lang)
         if fe is None:
             continue
-        for op in ('encode', 'roundtrip'):
+        for op in (('encode', 'roundtrip') if lang in ('python', 'go', 'java') else ('roundtrip',)):
             try:
                 if op == 'encode':
                     r = list(PathCtl([]).explore(lambda c: fe.encode(c, pk, cmsg, False)[0]))
@@ -952,7 +977,138 @@ def _run_java(spec, emit, req):
     return out
 
 
-NATIVE_RUN = {'python': _run_python, 'go': _run_go, 'java': _run_java}
+RUST_MAIN = '''use bytes::{Bytes, BytesMut};
+use binary_codec::BinaryCodec;
+use fp::%(mod)s::%(name)s;
+fn main() {
+    let a: Vec<String> = std::env::args().collect();
+    let h = a[1].as_bytes();
+    let mut data = Vec::new();
+    let mut i = 0;
+    while i + 1 < h.len() { data.push(u8::from_str_radix(std::str::from_utf8(&h[i..i + 2]).unwrap(), 16).unwrap()); i += 2; }
+    let mut b = Bytes::from(data);
+    match %(name)s::decode(&mut b) {
+        None => println!("{{\\"error\\":\\"decode returned None\\"}}"),
+        Some(o) => {
+            let rest = b.len();
+            let mut w = BytesMut::new();
+            o.encode(&mut w);
+            let hx: String = w.iter().map(|x| format!("{:02x}", x)).collect();
+            println!("{{\\"rest\\":{},\\"hex\\":\\"{}\\"}}", rest, hx);
+        }
+    }
+}
+'''
+
+
+def _run_rust(spec, emit, req):
+    """roundtrip only (no reflection in Rust): decode the given bytes with the REAL emitted decoder, re-encode, report"""
+    import subprocess, shutil
+    from .fe_rust import rust_rt
+    if req.get('op') != 'roundtrip':
+        return None
+    files = emit['files'].get('rs', {})
+    lib = files.get('lib.rs')
+    if not lib:
+        return None
+    mod = None
+    for rel, path in files.items():
+        if rel.endswith('.rs') and re.search(r'pub struct %s\b' % re.escape(req['class']), open(path, errors='replace').read()):
+            mod = os.path.basename(rel)[:-3]
+    if mod is None or mod == 'lib':
+        return {'skipped': 'no module declares struct %s' % req['class']}
+    rt = rust_rt()
+    d = os.path.join(build.cache_dir(), 'native_rust', '%s_%d' % (spec.name, os.getpid()))
+    shutil.rmtree(d, ignore_errors=True)
+    os.makedirs(d)
+    ext = ['-L', rt, '--extern', 'bytes=' + os.path.join(rt, 'libbytes.rlib'), '--extern', 'byteorder=' + os.path.join(rt, 'libbyteorder.rlib'),
+           '--extern', 'binary_codec=' + os.path.join(rt, 'libbinary_codec.rlib')]
+    try:
+        r = subprocess.run(['rustc', '--edition', '2021', '--crate-type', 'rlib', '--crate-name', 'fp', '-A', 'warnings', '-o', os.path.join(d, 'libfp.rlib'), lib] + ext,
+                           capture_output=True, text=True, timeout=300)
+        if r.returncode != 0:
+            return {'build_error': r.stderr[-300:]}
+        open(os.path.join(d, 'main.rs'), 'w').write(RUST_MAIN % {'mod': mod, 'name': req['class']})
+        r = subprocess.run(['rustc', '--edition', '2021', '-A', 'warnings', '-o', os.path.join(d, 'main'), os.path.join(d, 'main.rs'), '--extern', 'fp=' + os.path.join(d, 'libfp.rlib')] + ext,
+                           capture_output=True, text=True, timeout=300)
+        if r.returncode != 0:
+            return {'build_error': r.stderr[-300:]}
+        r = subprocess.run([os.path.join(d, 'main'), req['data']], capture_output=True, text=True, timeout=60)
+        if r.returncode != 0:
+            return {'error': 'panic: ' + (re.findall(r'panicked at[^\n]*\n?[^\n]*', r.stderr) or [r.stderr[-200:]])[0][:200]}
+        return json.loads(r.stdout.strip().split('\n')[-1])
+    except Exception as e:
+        return {'driver_error': str(e)[:200]}
+    finally:
+        shutil.rmtree(d, ignore_errors=True)
+
+
+CPP_MAIN = '''#include <cstdio>
+#include <cstdlib>
+#include <exception>
+#include <string>
+#include <vector>
+#include <cstdint>
+#include "%(hdr)s"
+int main(int argc, char** argv) {
+    std::string h = argc > 1 ? argv[1] : "";
+    std::vector<uint8_t> data;
+    for (size_t i = 0; i + 1 < h.size(); i += 2) data.push_back((uint8_t) std::strtoul(h.substr(i, 2).c_str(), nullptr, 16));
+    try {
+        ByteBuf buf(data);
+        %(name)s o;
+        o.decode(buf);
+        size_t rest = buf.readable_bytes();
+        ByteBuf w;
+        o.encode(w);
+        std::string hx;
+        char t[4];
+        for (uint8_t b : w.data()) { std::snprintf(t, sizeof t, "%%02x", b); hx += t; }
+        std::printf("{\\"rest\\":%%zu,\\"hex\\":\\"%%s\\"}\\n", rest, hx.c_str());
+    } catch (const std::exception& e) {
+        std::string m = e.what();
+        for (auto& c : m) if (c == \'"\' || c == \'\\\\\') c = \' \';
+        std::printf("{\\"error\\":\\"%%s\\"}\\n", m.c_str());
+    }
+    return 0;
+}
+'''
+
+
+def _run_cpp(spec, emit, req):
+    """roundtrip only: decode the given bytes with the REAL emitted decoder compiled by clang++ against runtimes/cpp, re-encode"""
+    import subprocess, shutil
+    if req.get('op') != 'roundtrip':
+        return None
+    files = emit['files'].get('cpp', {})
+    hdrs = [path for rel, path in files.items() if rel.endswith('.hpp')]
+    if not hdrs:
+        return None
+    src = open(hdrs[0], errors='replace').read()
+    m = [n for n in re.findall(r'^struct\s+(\w+)\s*:', src, re.M) if re.sub(r'[^a-z0-9]', '', n.lower()) == re.sub(r'[^a-z0-9]', '', req['class'].lower())]
+    if not m:
+        return {'skipped': 'no struct for packet %s' % req['class']}
+    rt = os.path.join(VERIF, 'runtimes', 'cpp')
+    d = os.path.join(build.cache_dir(), 'native_cpp', '%s_%d' % (spec.name, os.getpid()))
+    shutil.rmtree(d, ignore_errors=True)
+    os.makedirs(d)
+    try:
+        open(os.path.join(d, 'main.cpp'), 'w').write(CPP_MAIN % {'hdr': hdrs[0], 'name': m[0]})
+        r = subprocess.run(['clang++', '-std=c++17', '-O0', '-Wno-everything', '-I', rt, '-o', os.path.join(d, 'main'), os.path.join(d, 'main.cpp')],
+                           capture_output=True, text=True, timeout=300)
+        if r.returncode != 0:
+            return {'build_error': (re.findall(r'error: .*', r.stderr) or [r.stderr[-300:]])[0][:300]}
+        r = subprocess.run([os.path.join(d, 'main'), req['data']], capture_output=True, text=True, timeout=60)
+        if r.returncode != 0 or not r.stdout.strip():
+            return {'error': 'abnormal termination (exit %s): %s' % (r.returncode, r.stderr[-150:])}
+        return json.loads(r.stdout.strip().split('\n')[-1])
+    except Exception as e:
+        return {'driver_error': str(e)[:200]}
+    finally:
+        shutil.rmtree(d, ignore_errors=True)
+
+
+NATIVE_RUN = {'python': _run_python, 'go': _run_go, 'java': _run_java, 'rust': _run_rust, 'cpp': _run_cpp}
 
 
 def native_replay(lang, spec, emit, rec):
@@ -972,10 +1128,16 @@ def native_replay(lang, spec, emit, rec):
         req = {'op': 'encode', 'class': pk.name, 'msg': msg_to_native(spec, pk, cex)}
     except Exception as e:
         return {'skipped': 'cannot rebuild the message: %s' % e, 'confirmed': None}
+    if lang in ('rust', 'cpp'):
+        # no reflection to build the message there; rebuilding it with the real decoder from the reference bytes was tried and is
+        # unsound as a confirmation (a padding defect shared by encoder and decoder round-trips cleanly), so these two languages
+        # keep the front-end's concrete re-evaluation as their confirmation
+        return None
     out = NATIVE_RUN[lang](spec, emit, req)
     if out is None:
         return None
     out['reference_hex'] = want.hex()
+    out['how'] = 'native decode of the reference bytes followed by native encode' if req['op'] == 'roundtrip' else 'native encode of the counterexample message'
     if 'driver_error' in out or 'build_error' in out or 'skipped' in out:
         out['confirmed'] = None
     else:
